@@ -36,7 +36,7 @@ CFG = {
     "generated": ["C05:", "tables"],
     "allow_bv_decide": False,
     "required_theorems": ["SV.Props.C06.index_structure", "SV.Props.C06.string_end_eq", "SV.Props.C06.number_span_eq",
-                          "SV.Props.C06.navigate_eq", "SV.Props.C06.find_last_dup", "SV.Props.C06.decode_escapes_eq", "SV.Props.C06.raw_range_eq", "SV.Props.C06.navigate_eq_composed", "SV.Props.C06.prims_fast_eq"],
+                          "SV.Props.C06.navigate_eq", "SV.Props.C06.find_last_dup", "SV.Props.C06.decode_escapes_eq", "SV.Props.C06.raw_range_eq", "SV.Props.C06.navigate_eq_composed", "SV.Props.C06.prims_fast_eq", "SV.Props.C06.index_structure_preorder"],
     "nontrivial": _c06_nontrivial,
     "rule": "request = one document whose whole navigated tree is dumped, or one text-level kernel call; distinct request "
             "lines with at least 2 payload bytes",
